@@ -50,7 +50,12 @@ func newSessionOn(tb stat.TB, backend absfs.SymlinkFileSystem, v *vfs.FS, opts a
 	return &session{tb: tb, e: e, v: v, cl: drv.Root()}
 }
 
-func (s *session) close() { s.e.Close() }
+func (s *session) close() {
+	if s.e.ViaConn {
+		stat.Label("session_over_connection_loop", 1)
+	}
+	s.e.Close()
+}
 
 // guard runs f and converts an abandon panic into a discarded case.
 func guard(f func()) (abandoned bool) {
@@ -87,6 +92,10 @@ func (s *session) nfsAs(cl drv.Client, proc uint32, args []byte) *nfsx.Res {
 			panic(abandon{err.Error()})
 		}
 		var na *drv.ErrNotAccepted
+		if errors.Is(err, drv.ErrConnClosed) && s.tolerateMalformed {
+			stat.Label("connection_closed_instead_of_reply_tolerated", 1)
+			return &nfsx.Res{Proc: proc, Status: 0xFFFFFFFD}
+		}
 		if errors.As(err, &na) && s.tolerateMalformed {
 			stat.Label("rpc_not_accepted_tolerated", 1)
 			return &nfsx.Res{Proc: proc, Status: 0xFFFFFFFE}
@@ -138,6 +147,9 @@ type cacheCfg struct {
 	AttrSize  int   `json:"attr_size"`
 	DirCache  bool  `json:"dir_cache"`
 	Negative  bool  `json:"negative"`
+	// Conn (not a cache setting; it travels with the session configuration of the history checks): every request of
+	// the case goes through the server's record-marking connection loop (drv.Env.ViaConn) instead of a direct HandleCall.
+	Conn bool `json:"conn,omitempty"`
 }
 
 func (c cacheCfg) apply(o *absnfs.ExportOptions) {
